@@ -22,18 +22,21 @@ def build_collection(rec):
     parent = lib.chrom_parent(genome, name=SEQNAME)
     genes = []
     for i, g in enumerate(rec["genes"]):
-        r = W.resolve(g, genome)
-        ids = W.ids_of(g, i)
-        coding = r["kind"] == "coding"
-        bt = Biotype["protein_coding"] if coding else Biotype[r["kind"]]
-        kw = dict(transcript_id=ids["transcript_id"], transcript_symbol=ids["transcript_symbol"], protein_id=ids["protein_id"],
-                  transcript_type=bt, sequence_name=SEQNAME)
-        if coding:
-            tx = lib.mk_tx(r["exons"], r["strand"], r["cds"], r["frames"], parent, **kw)
-        else:
-            tx = lib.mk_tx(r["exons"], r["strand"], parent=parent, **kw)
-        genes.append(GeneInterval([tx], gene_id=ids["gene_id"], gene_symbol=ids["gene_symbol"], gene_type=bt,
-                                  locus_tag=ids["locus_tag"], sequence_name=SEQNAME, parent_or_seq_chunk_parent=parent))
+        gids = W.ids_of(g, i)
+        txs = []
+        for k, t in enumerate(W.transcripts_of(g)):
+            r = W.resolve(t, genome)
+            ids = W.tx_ids(gids, k)
+            coding = r["kind"] == "coding"
+            bt = Biotype["protein_coding"] if coding else Biotype[r["kind"]]
+            kw = dict(transcript_id=ids["transcript_id"], transcript_symbol=ids["transcript_symbol"], protein_id=ids["protein_id"],
+                      transcript_type=bt, sequence_name=SEQNAME)
+            if coding:
+                txs.append(lib.mk_tx(r["exons"], r["strand"], r["cds"], r["frames"], parent, **kw))
+            else:
+                txs.append(lib.mk_tx(r["exons"], r["strand"], parent=parent, **kw))
+        genes.append(GeneInterval(txs, gene_id=gids["gene_id"], gene_symbol=gids["gene_symbol"], gene_type=bt,
+                                  locus_tag=gids["locus_tag"], sequence_name=SEQNAME, parent_or_seq_chunk_parent=parent))
     fcs = []
     for j, fc in enumerate(rec.get("fcs", [])):
         ids = W.fc_ids_of(j)
